@@ -84,6 +84,10 @@ def tasks(tier):
             out.append({"sort": sort, "depth": depth, "depth_base": depth if tier == "quick" else None, "complexes": [x]})
         out.append({"sort": sort, "depth": depth, "file": "cube.tet"})
         out.append({"sort": sort, "depth": depth, "file": "join.tet"})
+    # a large specimen (384 cells: cell / face / edge ids beyond 256): cache states reachable with <= 1 event, argument
+    # domains thinned by a fixed stride
+    out.append({"sort": True, "depth": 2, "big": "cubegrid4"})
+    out.append({"sort": False, "depth": 2, "big": "cubegrid4"})
     # configuration deviation: config.display_duplicate_attribute_warning = True makes create_attribute hand back an
     # existing attribute of the same name instead of a fresh one (the border flags of vertices and edges are both
     # called "border"); base listings only, sorting on
@@ -412,7 +416,7 @@ def _content_key(m):
                          m.cells._data, m.cell_corners._elem, m.cell_corners._adj, m.cell_faces._elem, m.cell_faces._adj), protocol=4)
 
 
-def _explore(M, name, n, pts, cells, sort, rep, events, build):
+def _explore(M, name, n, pts, cells, sort, rep, events, build, big=False):
     m0 = build()
     o = VolOracle(cells, n, list(m0.faces), list(m0.edges), pts)
     # premises (construction = C02): every triangle of every cell is a face, every side an edge
@@ -428,7 +432,8 @@ def _explore(M, name, n, pts, cells, sort, rep, events, build):
                 f"sort={sort}:{'warm' if warm else 'fresh'}" + (":duplicate_attribute_flag" if DUP[0] else ""))
     resets = {"connectivity.clear": lambda m: m.connectivity.clear()}
     seen = explore("C03", build, o, events, resets, _state_key, _content_key, rep, icls,
-                   {"mesh": name, "n": n, "cells": [list(c) for c in cells], "sort": sort}, max_states=4000, max_depth=DEPTH[0])
+                   {"mesh": name, "n": n, "cells": [list(c) for c in cells] if not big else "see mc.families.cube_grid_tets(4)", "sort": sort},
+                   max_states=4000, max_depth=DEPTH[0], domain_cap=1500 if big else None, numpy_args=not big)
     for k in seen:
         if len(o.C) >= 2:
             rep.case((name, sort, k))
@@ -454,6 +459,10 @@ def run_task(task, rep: Report):
     M.config.sort_neighborhoods = sort
     try:
         events = _events(sort)
+        if "big" in task:
+            pts, cells = F.cube_grid_tets(4)
+            _explore(M, task["big"], len(pts), pts, cells, sort, rep, events, lambda: F.build_volume(pts, cells, tuple), big=True)
+            return
         if "file" in task:
             import os
             path = os.path.join(os.environ.get("VERIF_REPO", "/repo"), "tests", "data", task["file"])
